@@ -38,6 +38,14 @@ def run_shared(chk, tier, own):
                 ev = indx.file_event(IndxIO, tid, arity, common, ents, str(wd), cuts=(own == "C12" or tid % 7 == 0))
                 events.append(ev)
                 meta[tid] = {"kind": "file", "arity": arity, "common": common, "ents": ents}
+        if own in ("C11", "C12"):
+            # the same writer used from several threads at once: every file is still the layout of its own data (and its
+            # size field that of its own payload - a smaller one would let torn prefixes pass)
+            ccases = [c for c in indx.gen_file_cases(tier, core.SEED + 4) if len(c[2]) >= 1][:: 3][: (400 if tier == "quick" else 4000)]
+            for ev, (arity, common, ents) in zip(indx.concurrent_file_events(IndxIO, ccases, str(wd), tid), ccases):
+                tid = ev["tid"]
+                events.append(ev)
+                meta[tid] = {"kind": "file", "arity": arity, "common": common, "ents": ents, "saved_concurrently_by_4_threads": True}
         # C12: crash points of the REAL writer at system-call granularity: the save runs under strace, its writes are
         # replayed, and the loader must reject the disk content after every system call and at every byte of every write
         if own == "C12":
